@@ -72,7 +72,7 @@ VENDORS = {
     "b4com": ("B4com", "no", "removeSpaces"),
 }
 NOUNS = ["interface", "vlan", "ip", "description", "mtu", "bgp", "peer", "address", "shutdown", "port", "acl", "rule"]
-VALS = ["Eth1", "Eth2", "10", "20", "foo", "1.1.1.1", "x", "9000", "Vlanif10"]
+VALS = ["Eth1", "Eth2", "10", "20", "foo", "1.1.1.1", "x", "9000", "Vlanif10", "0", "0"]
 POLICY_END = ("end-list", "endif", "end-filter")
 _STATE = {}
 
@@ -985,7 +985,7 @@ def _render_acl(rng, lines):
 def _toks(rng, row, noise):
     """a row as tuple tokens: ints for numbers, sometimes a nested tuple"""
     ws = row.split(" ")
-    vals = [int(w) if w.isdigit() and not w.startswith("0") and rng.random() < 0.7 else w for w in ws]
+    vals = [int(w) if w.isdigit() and (w == "0" or not w.startswith("0")) and rng.random() < 0.7 else w for w in ws]
     if len(vals) >= 2 and rng.random() < 0.2:
         i = rng.randint(1, len(vals) - 1)
         vals = vals[:i] + [vals[i:]]
@@ -1059,14 +1059,16 @@ def _ops_of(rng, nodes, noise, depth=0):
         body = _ops_of(rng, ch, noise, depth + 1)
         r = rng.random()
         if r < 0.45:
-            toks = [row] if rng.random() < 0.4 else [int(w) if w.isdigit() and not w.startswith("0") else w
+            toks = [row] if rng.random() < 0.4 else [int(w) if w.isdigit() and (w == "0" or not w.startswith("0")) else w
                                                      for w in row.split(" ")]
             if rng.random() < noise["lead"] * 0.5:
                 toks = [" " + str(toks[0])] + toks[1:]
             ind = rng.choice([" ", "    ", "\t", "   "]) if rng.random() < 0.12 else None
             ops.append(["b", toks, ind, body])
         elif r < 0.7:
-            toks = row.split(" ")
+            # block_if tokens: strings and numbers (0 included: falsy, but neither None nor "")
+            toks = [int(w) if w.isdigit() and (w == "0" or not w.startswith("0")) and rng.random() < 0.6 else w
+                    for w in row.split(" ")]
             r2 = rng.random()
             if r2 < 0.7:
                 cond = None
